@@ -11,7 +11,7 @@ pub fn check(x: &Execution) -> Vec<(String, String)> {
     let mut bad = Vec::new();
     for r in &x.history {
         match (&r.op, &r.outcome.res) {
-            (POp::Unlink(_), _) => {}
+            (POp::Unlink(_), _) | (POp::ClockJump(_), _) => {}
             (POp::Api(op), Res::Err(kind, os, msg)) => bad.push((
                 "error".into(),
                 format!("t{} {} returned an error because of concurrent activity: {:?}/{:?} {}", r.tid, op.label(), kind, os, msg),
